@@ -344,6 +344,8 @@ pub struct Gen<'a> {
     cur_struct: Option<usize>,
     pub implicit_sites: u32,
     cur_ns: Vec<Name>,
+    /// (struct index, index in its method list)
+    methods: Vec<(usize, usize)>,
     ns_pool: Vec<(Vec<Name>, Name)>,
     /// functions callable from the function being generated (indices into prog.funcs)
     callable: Vec<usize>,
@@ -372,6 +374,7 @@ impl<'a> Gen<'a> {
             cur_struct: None,
             implicit_sites: 0,
             cur_ns: Vec::new(),
+            methods: Vec::new(),
             ns_pool: Vec::new(),
             callable: Vec::new(),
             diverted: 0,
@@ -1345,7 +1348,55 @@ impl<'a> Gen<'a> {
     }
 
     /// a call at statement level: may have out parameters and may write statics
+    /// `obj.method(args);` or `T r = obj.method(args);` on a struct variable (declared here when none is visible)
+    fn method_call_stmt(&mut self, out: &mut Vec<St>) -> bool {
+        // inside a method only earlier methods exist, and the object would be another instance: keep it simple
+        if self.methods.is_empty() {
+            return false;
+        }
+        let k = self.pick(self.methods.len());
+        let (si, mi) = self.methods[k];
+        let m = self.prog.structs[si].methods[mi].clone();
+        let sty = Ty::Struct(si);
+        let vars = self.vars_of(&sty, true);
+        let obj = if !vars.is_empty() {
+            let v = vars[self.pick(vars.len())].clone();
+            self.note_static(&v, true);
+            v.name
+        } else {
+            let n = self.declare(sty.clone(), false, false);
+            out.push(St::Decl(sty.clone(), n, Some(E::Cast(sty.clone(), Box::new(E::Lit("0".into(), Ty::S(Sc::Int))))), false));
+            n
+        };
+        let mut args = Vec::new();
+        for p in &m.params {
+            if p.io == 0 {
+                let mut a = self.conv_expr(&p.ty, 3);
+                if Self::is_lit(&a) {
+                    a = E::Cast(p.ty.clone(), Box::new(a));
+                }
+                args.push(a);
+            } else {
+                let init = self.expr(&p.ty, 2);
+                let n = self.declare(p.ty.clone(), false, false);
+                out.push(St::Decl(p.ty.clone(), n, Some(init), false));
+                args.push(E::Var(n, p.ty.clone()));
+            }
+        }
+        let call = E::Method(Box::new(E::Var(obj, sty)), m.name, args);
+        if m.ret != Ty::Void {
+            let n = self.declare(m.ret.clone(), false, false);
+            out.push(St::Decl(m.ret.clone(), n, Some(call), false));
+        } else {
+            out.push(St::Expr(call));
+        }
+        true
+    }
+
     fn call_stmt(&mut self, out: &mut Vec<St>) {
+        if self.prof.methods && self.cur_struct.is_none() && self.pick(3) == 0 && self.method_call_stmt(out) {
+            return;
+        }
         let cands: Vec<usize> = self.callable.iter().copied().filter(|i| self.prog.funcs[*i].method_of.is_none()).collect();
         if cands.is_empty() {
             return;
@@ -1449,6 +1500,11 @@ impl<'a> Gen<'a> {
         let idx = self.prog.structs.len();
         self.prog.structs.push(StructDef { name, fields, methods: Vec::new() });
         self.prog.items.push(Item::Struct(idx));
+        if self.prof.methods && self.pick(2) == 0 {
+            for _ in 0..1 + self.pick(2) {
+                self.gen_func_or_method(None, Some(idx));
+            }
+        }
     }
 
     fn gen_enum(&mut self) {
@@ -1501,11 +1557,25 @@ impl<'a> Gen<'a> {
     }
 
     fn gen_func(&mut self, name_share: Option<Name>) -> usize {
+        self.gen_func_or_method(name_share, None)
+    }
+
+    /// a free function, or (method_of = struct index) a member function whose body sees the fields as variables
+    fn gen_func_or_method(&mut self, name_share: Option<Name>, method_of: Option<usize>) -> usize {
         let ret = if self.pick(6) == 0 { Ty::Void } else { self.pick_value_ty() };
         let ret = if matches!(ret, Ty::Array(..)) { Ty::S(Sc::Int) } else { ret };
-        let name = name_share.unwrap_or_else(|| self.fresh("fn"));
+        let name = name_share.unwrap_or_else(|| self.fresh(if method_of.is_some() { "mt" } else { "fn" }));
+        self.cur_struct = method_of;
         let np = self.pick(4);
         let mut params = Vec::new();
+        // the members of the object are the outermost variables of a method
+        let mut fields_scope = Vec::new();
+        if let Some(si) = method_of {
+            for (fname, fty) in self.prog.structs[si].fields.clone() {
+                fields_scope.push(VarInfo { name: fname, ty: fty, is_const: false, frozen: false, is_static: false });
+            }
+        }
+        self.scopes.push(fields_scope);
         self.scopes.push(Vec::new());
         let mut has_out = false;
         for k in 0..np {
@@ -1547,8 +1617,8 @@ impl<'a> Gen<'a> {
         }
         self.scopes.pop();
         self.scopes.pop();
-        let idx = self.prog.funcs.len();
-        self.prog.funcs.push(Func {
+        self.scopes.pop();
+        let f = Func {
             name,
             ret,
             params,
@@ -1558,8 +1628,17 @@ impl<'a> Gen<'a> {
             reads_statics: self.cur_reads_statics,
             has_out,
             attrs: String::new(),
-            method_of: None,
-        });
+            method_of,
+        };
+        self.cur_struct = None;
+        if let Some(si) = method_of {
+            self.prog.structs[si].methods.push(f);
+            let k = self.prog.structs[si].methods.len() - 1;
+            self.methods.push((si, k));
+            return usize::MAX;
+        }
+        let idx = self.prog.funcs.len();
+        self.prog.funcs.push(f);
         self.prog.func_ns.push(self.cur_ns.clone());
         self.prog.items.push(Item::Func(idx));
         self.callable.push(idx);
